@@ -43,7 +43,7 @@ For each change k = 1..3 deliver, under {wd}/deliver/:
   - change<k>.diff : a unified diff (git diff format, paths relative to the repository root, applies with `git apply` to a clean checkout of HEAD) containing ONLY the library change.
   - demo<k>.cpp    : a small standalone C++17 program that includes the library headers (compile with: g++ -std=gnu++17 -O1 -g -I{wd}/Include -fno-exceptions demo<k>.cpp -o demo<k>; you may add -fsanitize=address,undefined if the failure is a memory error) and exits 0 / prints PASS on the unmodified library but exits non-zero / prints FAIL (or is reported by the sanitizer) with the change applied.
   - note<k>.txt    : 3-8 lines: what the change is, why it breaks the property, what specific circumstance is needed for it to manifest, and the exact commands you ran with their observed results (suite: 15/15 passed with change; demo passes without and fails with).
-Verify everything yourself: for each change, start from a clean tree (git -C {wd} checkout -- Include), apply the diff, rebuild, run ctest (all 15 must pass), build and run the demo (must fail), then revert and confirm the demo passes on the clean tree. Leave the worktree clean (git checkout -- Include) at the end, with only the deliver/ directory (and _build) left. If you cannot find three, deliver as many as you can verify. If, while exploring, you notice that the UNMODIFIED library already violates the property for some input, say so in your summary (with the input), but do not use that input in a demo. Finish with a short summary listing the delivered files.
+Verify everything yourself: for each change, start from a clean tree (git -C {wd} checkout -- Include), apply the diff, rebuild, run ctest (all 15 must pass), build and run the demo (must fail), then revert and confirm the demo passes on the clean tree. Never use `git stash` (the stash is shared between worktrees of one repository): save a change with `git diff > file` and drop it with `git checkout -- Include`. Leave the worktree clean (git checkout -- Include) at the end, with only the deliver/ directory (and _build) left. If you cannot find three, deliver as many as you can verify. If, while exploring, you notice that the UNMODIFIED library already violates the property for some input, say so in your summary (with the input), but do not use that input in a demo. Finish with a short summary listing the delivered files.
 """.format(wd=wd, pid=pid, title=p["title"], statement=p["statement"], quant=p["quantifier"]["text"], earlier="\n".join(earlier) or "   (none)")
     open(os.path.join(out, pid + ".txt"), "w").write(body)
     print(pid, len(earlier), "earlier changes")
